@@ -398,3 +398,21 @@ Proof.
   destruct (S f Hin T) as [_ Hiv].
   apply (accepted_function q en mods files (f_resume f) Hw Hfiles); [pose proof (R f Hin); lia | exact Hiv].
 Qed.
+
+(* ------------------------------------------------------------------ memory_range, as minidump.rs has it *)
+(* walk_stack only walks a stack memory whose memory_range() is Some: the model's [mem_ok] is exactly that, and the
+   `- 1` of the inclusive end never traps *)
+Lemma mem_ok_is_source : forall p m, mem_wf m ->
+  minidump_memory_range p (m_base m) (mem_len m) =
+  Ret (if mem_ok m then Some (m_base m, m_base m + mem_len m - 1) else None).
+Proof.
+  intros p m [Hb _]. unfold minidump_memory_range, mem_ok.
+  assert (Hl : 0 <= mem_len m) by (unfold mem_len; lia).
+  destruct (mem_len m =? 0) eqn:E0; cbn [negb andb]; [reflexivity|].
+  apply Z.eqb_neq in E0.
+  unfold checked_add. change (2 ^ 64) with two64.
+  destruct (m_base m + mem_len m <? two64) eqn:E1; [|reflexivity].
+  apply Z.ltb_lt in E1.
+  rewrite chk_sub_ok by (change (2 ^ 64) with two64; lia).
+  reflexivity.
+Qed.
